@@ -250,3 +250,312 @@ func exploreDecodedFields(c *Ctx) {
 		}
 	}
 }
+
+func exploreConstIndex(c *Ctx) {
+	for _, fn := range c.SrcFns {
+		if isGenerated(fn) {
+			continue
+		}
+		allInstrs(fn, func(in ssa.Instruction) {
+			var x, idx ssa.Value
+			switch a := in.(type) {
+			case *ssa.IndexAddr:
+				x, idx = a.X, a.Index
+			case *ssa.Index:
+				x, idx = a.X, a.Index
+			default:
+				return
+			}
+			k, ok := constIntVal(idx)
+			if !ok {
+				return
+			}
+			if _, isSl := x.Type().Underlying().(*types.Slice); !isSl {
+				if b, isB := x.Type().Underlying().(*types.Basic); !isB || b.Kind() != types.String {
+					return
+				}
+			}
+			src := "?"
+			switch s := stripConv(x).(type) {
+			case *ssa.Call:
+				src = calleeName(s)
+			case *ssa.Slice:
+				src = "slice-expr"
+			case *ssa.UnOp:
+				src = "load"
+			case *ssa.Extract:
+				if cl, ok := s.Tuple.(*ssa.Call); ok {
+					src = "result of " + calleeName(cl)
+				}
+			case *ssa.Parameter:
+				src = "param"
+			case *ssa.Phi:
+				src = "phi"
+			}
+			if al, ok := x.(*ssa.Alloc); ok {
+				_ = al
+				return
+			}
+			// skip fresh slices: x = slice of new array (varargs)
+			if sl, ok := x.(*ssa.Slice); ok {
+				if _, ok := sl.X.(*ssa.Alloc); ok {
+					return
+				}
+			}
+			fmt.Printf("CONSTIDX %s %s [%d] of %s guardedAny=%v\n", c.instrPos(in), fnName(fn), k, src, constIndexGuarded(fn, in, x, k))
+		})
+	}
+}
+
+// constIndexGuarded: len(x) is compared with a constant on an edge dominating the access such that len(x) > k holds
+func constIndexGuarded(fn *ssa.Function, at ssa.Instruction, x ssa.Value, k int64) bool {
+	var es []edge
+	for _, b := range fn.Blocks {
+		ifi, ok := b.Instrs[len(b.Instrs)-1].(*ssa.If)
+		if !ok {
+			continue
+		}
+		bo, ok := ifi.Cond.(*ssa.BinOp)
+		if !ok {
+			continue
+		}
+		l, r, op := bo.X, bo.Y, bo.Op
+		if isLenOf(r, x) {
+			l, r = r, l
+			switch op {
+			case token.LSS:
+				op = token.GTR
+			case token.GTR:
+				op = token.LSS
+			case token.LEQ:
+				op = token.GEQ
+			case token.GEQ:
+				op = token.LEQ
+			}
+		}
+		if !isLenOf(l, x) {
+			continue
+		}
+		n, ok := constIntVal(r)
+		if !ok {
+			continue
+		}
+		switch op {
+		case token.EQL: // len == n : true edge safe if n > k ; false edge safe only if n==0 && k==0? (len != 0 => len >= 1)
+			if n > k {
+				es = append(es, edge{b, 0})
+			}
+			if n == 0 && k == 0 {
+				es = append(es, edge{b, 1})
+			}
+		case token.NEQ:
+			if n > k {
+				es = append(es, edge{b, 1})
+			}
+			if n == 0 && k == 0 {
+				es = append(es, edge{b, 0})
+			}
+		case token.GTR: // len > n : true safe if n >= k
+			if n >= k {
+				es = append(es, edge{b, 0})
+			}
+		case token.GEQ: // len >= n : true safe if n > k
+			if n > k {
+				es = append(es, edge{b, 0})
+			}
+		case token.LSS: // len < n : false edge => len >= n safe if n > k
+			if n > k {
+				es = append(es, edge{b, 1})
+			}
+		case token.LEQ: // len <= n : false => len > n safe if n >= k
+			if n >= k {
+				es = append(es, edge{b, 1})
+			}
+		}
+	}
+	return len(es) > 0 && guardedBy(fn, at, es)
+}
+
+func exploreTypeAsserts(c *Ctx) {
+	for _, fn := range c.SrcFns {
+		if isGenerated(fn) {
+			continue
+		}
+		allInstrs(fn, func(in ssa.Instruction) {
+			ta, ok := in.(*ssa.TypeAssert)
+			if !ok || ta.CommaOk {
+				return
+			}
+			fmt.Printf("TASSERT %s %s .(%s)\n", c.instrPos(in), fnName(fn), short(ta.AssertedType.String()))
+		})
+	}
+}
+
+func exploreSharedFields(c *Ctx) {
+	la := c.locks()
+	classified := map[string]bool{}
+	types_ := map[string]string{}
+	for _, gs := range guardSpecs {
+		types_[gs.Type] = gs.Pkg
+		for _, f := range gs.Fields {
+			classified[gs.Type+"."+f] = true
+		}
+	}
+	for _, ws := range writeOnceSpecs {
+		types_[ws.Type] = ws.Pkg
+		for _, f := range ws.Fields {
+			classified[ws.Type+"."+f] = true
+		}
+	}
+	for tn, pkg := range types_ {
+		nt := c.namedType(pkg, tn)
+		if nt == nil {
+			continue
+		}
+		st := nt.Underlying().(*types.Struct)
+		for i := 0; i < st.NumFields(); i++ {
+			f := st.Field(i)
+			if classified[tn+"."+f.Name()] {
+				continue
+			}
+			// stores
+			nst, nfresh := 0, 0
+			var where []string
+			for _, fn := range c.SrcFns {
+				allInstrs(fn, func(in ssa.Instruction) {
+					s, ok := in.(*ssa.Store)
+					if !ok {
+						return
+					}
+					fa, ok := s.Addr.(*ssa.FieldAddr)
+					if !ok || fieldVar(fa.X.Type(), fa.Field) != f {
+						return
+					}
+					nst++
+					if la.isFresh(fa.X) {
+						nfresh++
+					} else {
+						where = append(where, fnName(fn))
+					}
+				})
+			}
+			fmt.Printf("SFIELD %s.%s %s stores=%d fresh=%d nonfresh-in=%v\n", tn, f.Name(), short(f.Type().String()), nst, nfresh, where)
+		}
+	}
+}
+
+// C18.R12 — a constant index into a slice or string is covered by a length test of that slice (or of the set the list
+// was made from), is [0] of a strings.Split result, or is one of the sites confirmed by reading
+var constIndexExempt = map[string]string{
+	"(*@/pkg/ipam/crd.crdCache).GetReplicas":                "spec.versions of a served CustomResourceDefinition is never empty (the API server defaults it from spec.version)",
+	"(*@/pkg/ipam/schedulerplugin.crdKey).popularCache":     "spec.versions of a served CustomResourceDefinition is never empty",
+	"@/pkg/utils/ips.ParseIPv4Mask":                         "net.ParseIP returns nil (tested) or a 16-byte slice",
+	"@/pkg/utils/ipset.getIPSetVersionString":               "output of the local ipset binary, not an input surface of the property",
+	"@/pkg/utils/iptables.getIPTablesRestoreVersionString":  "output of the local iptables-restore binary",
+	"@/pkg/utils/iptables.getIPTablesVersionString":         "output of the local iptables binary",
+	"@/pkg/utils/nets.ParseIPRange":                         "behind strings.Contains(ipr, separator): SplitN(.., 2) has two parts",
+}
+
+func setLenGuarded(fn *ssa.Function, at ssa.Instruction, x ssa.Value, k int64) bool {
+	// x = S.List() / S.UnsortedList(); guard: S.Len() > 0 / == 0
+	call, ok := stripConv(x).(*ssa.Call)
+	if !ok || !matchAny(calleeName(call), []string{"sets.String).List", "sets.String).UnsortedList"}) || len(call.Call.Args) == 0 || k != 0 {
+		return false
+	}
+	set := call.Call.Args[0]
+	var es []edge
+	for _, b := range fn.Blocks {
+		ifi, ok := b.Instrs[len(b.Instrs)-1].(*ssa.If)
+		if !ok {
+			continue
+		}
+		for _, cond := range condLeaves(ifi.Cond) {
+			bo, ok := cond.(*ssa.BinOp)
+			if !ok {
+				continue
+			}
+			lc, ok := bo.X.(*ssa.Call)
+			if !ok || !nameMatch(calleeName(lc), "sets.String).Len") || len(lc.Call.Args) == 0 {
+				continue
+			}
+			if !(lc.Call.Args[0] == set || sameAccess(lc.Call.Args[0], set)) {
+				continue
+			}
+			n, isC := constIntVal(bo.Y)
+			if !isC || n != 0 {
+				continue
+			}
+			switch bo.Op {
+			case token.GTR, token.NEQ:
+				es = append(es, edge{b, 0})
+			case token.EQL, token.LEQ:
+				es = append(es, edge{b, 1})
+			}
+		}
+	}
+	return len(es) > 0 && guardedBy(fn, at, es)
+}
+
+func condLeaves(v ssa.Value) []ssa.Value { return []ssa.Value{v} }
+
+func ruleConstIndexChecked(c *Ctx, rule string) {
+	n := 0
+	for _, fn := range c.SrcFns {
+		p := fn.Pkg.Pkg.Path()
+		if isGenerated(fn) || !strings.HasPrefix(p, modPath+"pkg/") || strings.Contains(p, "/testing") || strings.Contains(p, "/fake") || strings.HasSuffix(p, "pkg/utils/test") || strings.Contains(p, "/client/") {
+			continue
+		}
+		if strings.HasSuffix(c.Fset.Position(fn.Pos()).Filename, "/test.go") {
+			continue
+		}
+		allInstrs(fn, func(in ssa.Instruction) {
+			var x, idx ssa.Value
+			switch a := in.(type) {
+			case *ssa.IndexAddr:
+				x, idx = a.X, a.Index
+			case *ssa.Index:
+				x, idx = a.X, a.Index
+			default:
+				return
+			}
+			k, ok := constIntVal(idx)
+			if !ok {
+				return
+			}
+			if _, isSl := x.Type().Underlying().(*types.Slice); !isSl {
+				if b, isB := x.Type().Underlying().(*types.Basic); !isB || b.Kind() != types.String {
+					return
+				}
+			}
+			if _, ok := x.(*ssa.Alloc); ok {
+				return
+			}
+			if sl, ok := x.(*ssa.Slice); ok {
+				if _, ok := sl.X.(*ssa.Alloc); ok {
+					return // a fresh array (varargs, literal)
+				}
+			}
+			n++
+			okG := constIndexGuarded(fn, in, x, k) || setLenGuarded(fn, in, x, k)
+			if !okG && k == 0 {
+				if call, isCall := stripConv(x).(*ssa.Call); isCall && matchAny(calleeName(call), []string{"strings.Split", "strings.SplitN", "strings.SplitAfter"}) {
+					if sep, isC := constStringVal(call.Call.Args[1]); isC && sep != "" {
+						okG = true
+					} else if g, isG := call.Call.Args[1].(*ssa.Global); isG && g != nil {
+						okG = true
+					}
+				}
+			}
+			if !okG {
+				if why, ex := constIndexExempt[fnName(fn)]; ex {
+					c.exempt(rule, fn, fmt.Sprintf("constant index [%d]", k), in, why)
+					return
+				}
+			}
+			c.ob(rule, fn, fmt.Sprintf("constant index [%d] is covered by a length test", k), in, okG, "len(x) (or the Len() of the set the list was made from) is compared with a constant on an edge dominating the access such that len(x) > index; [0] of strings.Split with a non-empty separator always exists")
+		})
+	}
+	if n < 30 {
+		c.undecided(rule, nil, "constant index sites", nil, fmt.Sprintf("expected at least 30 sites in pkg/, found %d", n))
+	}
+}
